@@ -611,6 +611,169 @@ def check_C35(ctx):
                     "programs with up to 40 shuffled top-level declarations"])
 
 
+# ------------------------------------------------------------------------------------------
+# C17 numeric text / byte encodings
+NT_FILES = ["text/Dec.tla", "text/NumTypes.tla", "text/NumText.tla", "text/MC_NumText.tla", "text/MC_NumText_enum5.cfg",
+            "text/MC_NumText_enum6.cfg", "text/MC_NumText_file.cfg"]
+NUM_TYPES = {}
+for _b in (8, 16, 32, 64, 128, 256):
+    NUM_TYPES["Int%d" % _b] = (True, False, _b, 0)
+    NUM_TYPES["UInt%d" % _b] = (False, False, _b, 0)
+    NUM_TYPES["Word%d" % _b] = (False, False, _b, 0)
+NUM_TYPES.update({"Int": (True, False, 0, 0), "UInt": (False, False, 0, 0), "Fix64": (True, True, 64, 8), "UFix64": (False, True, 64, 8),
+                  "Fix128": (True, True, 128, 24), "UFix128": (False, True, 128, 24)})
+
+
+def type_bounds(t):
+    signed, fixed, bits, scale = NUM_TYPES[t]
+    if bits == 0:
+        return ((-(1 << 300)) if signed else 0, 1 << 300)
+    return (-(1 << (bits - 1)), (1 << (bits - 1)) - 1) if signed else (0, (1 << bits) - 1)
+
+
+def num_text(t, v, trim=False):
+    """generator-side rendering of a scaled value (untrusted; the model decides what every string means)"""
+    signed, fixed, bits, scale = NUM_TYPES[t]
+    if not fixed:
+        return str(v)
+    a = abs(v)
+    ip, fp = divmod(a, 10 ** scale)
+    fs = str(fp).rjust(scale, "0")
+    if trim:
+        fs = fs.rstrip("0") or "0"
+    return ("-" if v < 0 else "") + str(ip) + "." + fs
+
+
+def numtext_cases(seed, quick):
+    rnd = random.Random(1000003 * seed + 17)
+    cases = []
+    for t in sorted(NUM_TYPES):
+        signed, fixed, bits, scale = NUM_TYPES[t]
+        lo, hi = type_bounds(t)
+        unit = 10 ** scale
+        # ---- values: toString / toBigEndianBytes and back
+        vals = {0, 1, hi, hi - 1, lo, lo + 1, 9, 10, 11, 99, 100, 127, 128, 255, 256, unit, unit - 1, unit + 1, 5 * unit // 10 or 1}
+        if signed:
+            vals |= {-1, -9, -10, -128, -129, -unit, -unit + 1, -(unit // 10 or 1)}
+        for k in (3, 9, 10, 19, 20, 38, 39, 76, 77):
+            vals |= {10 ** k, 10 ** k - 1, -(10 ** k)}
+        for k in (7, 8, 15, 16, 31, 32, 63, 64, 127, 128, 255, 256):
+            vals |= {1 << k, (1 << k) - 1, -(1 << k), -(1 << k) - 1}
+        for _ in range(6 if quick else 60):
+            vals.add(rnd.randrange(lo, hi + 1) if bits else rnd.randrange(-(1 << 200) if signed else 0, 1 << 200))
+        for v in sorted(vals):
+            if lo <= v <= hi:
+                cases.append({"k": "S", "t": t, "neg": v < 0, "d": [int(c) for c in str(abs(v))]})
+        # ---- strings at the range boundaries, with perturbations
+        strs = set()
+        bvals = [hi, hi + 1, lo, lo - 1, hi + 10, lo - 10, hi * 10, 0]
+        if bits == 0:
+            bvals = [10 ** 80, -(10 ** 80), 0, (1 << 256), -(1 << 256) - 1]
+        for v in bvals:
+            for trim in (False, True):
+                x = num_text(t, v, trim)
+                strs |= {x, "+" + x.lstrip("-"), "00" + x if not x.startswith("-") else "-00" + x[1:], x + "0", x[:-1] or "0",
+                         x[:1] + "_" + x[1:], " " + x, x + " ", x.replace(".", "..", 1), x.replace(".", "", 1), "0x" + x}
+                if fixed:
+                    strs |= {x + "0" * (scale + 1), x.split(".")[0] + ".", "." + x.split(".")[1], x.split(".")[0] + ".5", x.split(".")[0] + ".9" * 1,
+                             x.split(".")[0] + "." + "9" * scale, x.split(".")[0] + "." + "9" * (scale + 1), x.split(".")[0] + ".0", x.split(".")[0] + ".+5"}
+        if fixed:
+            ih = hi // unit
+            il = -((-lo) // unit)
+            for ip in (ih, ih + 1, il, il - 1):
+                for fp in ("0", "5", "9", "99", "0" * scale, "9" * scale, str(hi % unit).rjust(scale, "0"), str((hi % unit) + 1).rjust(scale, "0"),
+                           str((-lo) % unit).rjust(scale, "0"), str(((-lo) % unit) + 1).rjust(scale, "0"), "1" + "0" * (scale - 1), "0" * (scale - 1) + "1"):
+                    strs.add("%d.%s" % (ip, fp))
+        strs |= {"", "-", "+", ".", "0", "-0", "+0", "-0.0", "+0.0", "0.0", "1" * 200, "-" + "1" * 200, "1." + "0" * 30, "1e5", "1E5", "٣", "１２"}
+        for x in sorted(strs):
+            if len(x) <= 260:
+                cases.append({"k": "P", "t": t, "s": list(x)})
+        # ---- byte arrays of every length 0..size+1
+        size = bits // 8
+        lens = range(0, size + 2) if size else list(range(0, 12)) + [16, 17, 31, 32, 33, 40]
+        for n in lens:
+            pats = [[0] * n, [255] * n, [128] + [0] * (n - 1), [127] + [255] * (n - 1), [0] * (n - 1) + [1], [1] + [0] * (n - 1), [0, 128] + [255] * (n - 2),
+                    [255, 127] + [0] * (n - 2), [rnd.randrange(256) for _ in range(n)], [rnd.randrange(256) for _ in range(n)]]
+            seen = set()
+            for b in pats:
+                b = b[:n]
+                if len(b) == n and bytes(b) not in seen:
+                    seen.add(bytes(b))
+                    cases.append({"k": "B", "t": t, "b": b})
+    for b in ([0] * 8, [0] * 7 + [1], [255] * 8, [0, 0, 0, 0, 0, 0, 16, 0], [18, 52, 86, 120, 154, 188, 222, 240]):
+        cases.append({"k": "A", "b": b})
+    for _ in range(20 if quick else 300):
+        cases.append({"k": "A", "b": [rnd.randrange(256) for _ in range(8)]})
+        cases.append({"k": "H", "b": [rnd.randrange(256) for _ in range(rnd.randrange(0, 41))]})
+    cases.append({"k": "H", "b": []})
+    cases.append({"k": "H", "b": list(range(256))})
+    idc = "abcdefghijklmnopqrstuvwxyzABCDEFGHIJKLMNOPQRSTUVWXYZ_0123456789"
+    for ident in ["foo", "a", "_x1", "Abc_9", "storage", "x" * 40] + ["".join([rnd.choice(idc[:53])] + [rnd.choice(idc) for _ in range(rnd.randrange(0, 12))]) for _ in range(10 if quick else 100)]:
+        for dom in ("storage", "public", "private"):
+            cases.append({"k": "Q", "dom": list(dom), "id": list(ident)})
+    return cases
+
+
+def nt_sig(f):
+    return {"op": f["op"], "ty": f.get("ty", ""), "class": f.get("class", ""), "width": f.get("width", ""), "dev": f["dev"],
+            "shape": f.get("shape", ""), "engine": f.get("engine", "")}
+
+
+def check_C17(ctx):
+    binary = ctx.build("text")
+    re_ = ctx.tlc(NT_FILES, "MC_NumText", "MC_NumText_enum5.cfg" if ctx.quick else "MC_NumText_enum6.cfg", workers=ctx.cores,
+                  tag="numtext-enum", timeout=3000)
+    cases = numtext_cases(ctx.seed, ctx.quick)
+    cf = os.path.join(ctx.work, "cases.ndjson")
+    write_ndjson(cf, cases)
+    rf = ctx.tlc(NT_FILES + [cf], "MC_NumText", "MC_NumText_file.cfg", workers=ctx.cores, tag="numtext-cases", timeout=3000)
+    frows = table_rows(rf)
+    nS = sum(1 for c in cases if c["k"] == "S")
+    if len(frows) != len(cases):
+        raise Infra("case table has %d rows for %d cases" % (len(frows), len(cases)))
+    summary, fails = run_driver(ctx, binary, "numtext", [tlc_out(re_), tlc_out(rf)], "numtext", timeout=3000)
+    if summary["rows"] != re_.distinct + len(frows):
+        raise Infra("driver judged %d rows, TLC printed %d" % (summary["rows"], re_.distinct + len(frows)))
+    for f in fails:
+        ctx.report(nt_sig(f), "%s %s (%s, %s): %s: %s" % (f.get("ty", ""), f["op"], f.get("engine", ""), f.get("shape", ""), f["dev"], f["msg"]),
+                   {"op": f["op"], "type": f.get("ty"), "input": f.get("input"), "engine": f.get("engine"), "observed": f["msg"]})
+    # negative control: corrupted rows must be rejected
+    prow = next(r for r in frows if r[0] == "P" and r[3] != 0 and r[1] == "Int64")
+    srow = next(r for r in frows if r[0] == "S" and r[1] == "Fix64" and len(r[3]) > 3)
+    brow = next(r for r in frows if r[0] == "B" and r[1] == "Int32" and len(r[2]) == 5)
+    c1 = json.loads(json.dumps(prow)); c1[3]["d"][-1] = (c1[3]["d"][-1] + 1) % 10
+    c2 = json.loads(json.dumps(prow)); c2[3] = 0
+    c3 = json.loads(json.dumps(srow)); c3[4][-1] = "1" if c3[4][-1] != "1" else "2"
+    c4 = json.loads(json.dumps(brow)); c4[3] = {"n": False, "d": [1]}; c4[4] = [0, 0, 0, 1]
+    nf = os.path.join(ctx.work, "negctl.ndjson")
+    write_ndjson(nf, [c1, c2, c3, c4])
+    _, nfails = run_driver(ctx, binary, "numtext", [nf], "numtext-negctl")
+    devs = {(f["op"], f["dev"]) for f in nfails}
+    need = {("fromString", "wrong-value"), ("fromString", "accepts-specified-nil"), ("toString", "wrong-text"), ("fromBigEndianBytes", "accepts-specified-nil")}
+    if not need <= devs:
+        raise Infra("negative control failed: corrupted rows not all rejected: %s" % sorted(devs))
+    erows = [r for r in table_rows(re_) if r[3]]
+    ctx.add_sample({"enumerated string": "".join(erows[len(erows) // 2][1]), "class results": erows[len(erows) // 2][2], "nil for": erows[len(erows) // 2][3]})
+    ctx.add_sample({"boundary string row": [prow[1], "".join(prow[2]), prow[3]]})
+    ctx.add_sample({"value row": [srow[1], srow[2], "".join(map(str, srow[3])), "".join(srow[4]), srow[5]]})
+    ctx.add_sample({"bytes row": brow})
+    return ctx.finish({
+        "states": re_.distinct + rf.distinct, "transitions": re_.generated + rf.generated - 2,
+        "traces_validated_against_impl": summary["rows"],
+        "evaluations": summary["evaluations"],
+        "distinct_nontrivial": summary["nontrivial"],
+        "rule": "distinct (operation, type, input) cases executed in real scripts; a fromString case is non-trivial when the string contains a digit "
+                "(so the automaton, scale or range rule decides) -- pure garbage strings are counted as evaluations only",
+        "distinct_cases": summary["distinct"],
+        "enumerated_strings": re_.distinct, "string_type_pairs": re_.distinct * 24,
+        "boundary_cases": len(cases), "scripts": summary["scripts"],
+        "negative_control": "4 corrupted rows (value digit, accept->nil, toString text, over-long bytes accepted) all rejected",
+        "exhaustive": True,
+    }, assumptions=["sign rule per class taken from the fixed-width parsers (signed: +/-, unsigned integer: none, unsigned fixed: +); the reference only says invalid input gives nil",
+                    "fromBigEndianBytes with fewer bytes than the type's size: the bytes are the low-order bytes (zero padding); the property only fixes the round trip and the nil rule",
+                    "values are passed to scripts as JSON-CDC arguments built from Go big integers (not through Cadence literals)"])
+
+
 META = {
     "C46": {
         "level_text": "TLC evaluates the RLP decoder specification (Rlp.tla: encoder = definition of canonical, DecodeString, one-level DecodeList, "
@@ -654,5 +817,19 @@ META = {
         "technique": "TLA+ function specification model-checked with TLC + table conformance (E4); relational trace validation of digests (E3); round-trip exploration",
         "design_ref": "DESIGN.md section 5 C35",
         "engine": "E4 table + E3 relational",
+    },
+    "C17": {
+        "level_text": "NumText.tla specifies fromString as an acceptance automaton parameterised only by (signed, fixed-point) followed by the value "
+                      "fold on exact decimal digit sequences, the scale rule and the range check; toString; and the big-endian byte fold with the "
+                      "nil-iff-longer rule. TLC enumerates every string of length <= 5 (6 thorough) over {+,-,0,7,_,.,space,x} (one state each, "
+                      "width-independence checked per string) and seeded boundary cases for all 24 numeric types (values at the range bounds, "
+                      "strings at max/min +-1 with sign, zero, underscore, whitespace, scale perturbations, 200-digit strings; byte arrays of every "
+                      "length 0..size+1), checking string and byte round-trip laws on the model. Every row is executed through real scripts on "
+                      "interpreter and VM: fromString for every string x every type, toString, to/fromBigEndianBytes, plus address/hex/path text forms.",
+        "level_note": "Trusted: TLC, the private decimal arithmetic module Dec.tla, JSON printers, the Go comparison loops and JSON-CDC argument passing. "
+                      "Strings longer than the enumeration bound are covered by generated boundary cases only.",
+        "technique": "TLA+ function specification model-checked with TLC; TLC-evaluated table compared with the real functions (E4)",
+        "design_ref": "DESIGN.md section 5 C17",
+        "engine": "E4 table conformance",
     },
 }
